@@ -57,3 +57,71 @@ contract('pyx12.validation.IsValidDataType',
          opaque=['spec_date', 'spec_time', 'spec_string'],
          tactics=[{'when': {'data_type': ['RD8']}, 'split_len': {'str_val': 18}}],
          serves=['C13'])
+
+
+# ---- bounded native safety net (labelled bounded; redundant with the proof while the functions are within the verifier's reach;
+# it still decides when a rewrite takes a function outside the supported subset) ------------------------------------------------
+def bounded_validation(seed, tier):
+    """the contracts of this module evaluated natively on the real functions: every string over a boundary alphabet up to length
+    3 (quick) / 4 (thorough), every single code point up to 0x2FF and a sample above, a grid of calendar dates / times /
+    ranges, numbers with signs and points, seeded random strings - for every data type, both character sets and versions"""
+    import itertools
+    import random
+    import pyx12.validation as V
+    rnd = random.Random(seed)
+    alpha = ['0', '1', '9', '-', '.', ' ', 'A', 'a', '~', '\x07', '\n', '+', 'é', '٢']
+    pool = set([''])
+    for n in range(1, (3 if tier == 'quick' else 4) + 1):
+        for t in itertools.product(alpha[:10] if n > 2 else alpha, repeat=n):
+            pool.add(''.join(t))
+    for cp in list(range(0, 0x300)) + [0x660, 0x966, 0xFF10, 0x2028, 0x10000, 0x1D7CE]:
+        pool.add(chr(cp))
+        pool.add('1' + chr(cp))
+    years = ['0000', '0001', '1899', '1900', '1999', '2000', '2004', '2023', '2100', '2400', '9999']
+    mds = ['0000', '0001', '0100', '0101', '0131', '0132', '0228', '0229', '0230', '0430', '0431', '0631', '0930', '0931', '1130', '1131', '1231', '1232', '1301', '9999']
+    dates = [y + md for y in years for md in mds] + [y[2:] + md for y in years for md in mds]
+    pool.update(dates)
+    pool.update(d + x for d in dates[:60] for x in ('\n', ' ', '0', 'A'))
+    pool.update(a + '-' + b for a in dates[:220:7] for b in dates[5:220:11])
+    pool.update(a + '-' + b + '-' + a for a in dates[:30:5] for b in dates[:30:7])
+    hh = ['00', '01', '09', '12', '23', '24', '29', '99', '0A']
+    mm = ['00', '01', '59', '60', '99', 'A0']
+    times = [h + m for h in hh for m in mm] + [h + m + s for h in hh[:5] for m in mm[:3] for s in mm] + \
+            [h + m + s + d for h in hh[:4] for m in mm[:2] for s in mm[:3] for d in ('0', '9', '00', '99', '999', 'A', '0A')]
+    pool.update(times)
+    pool.update(h + m + d for h in hh[:5] for m in mm[:3] for d in ('0', '5', '9', 'A', ' '))        # five characters: never a time
+    for d in dates[:400:3] + times[:80:3]:
+        for k in (0, len(d) // 2, len(d) - 1):
+            for u in ('٢', '２', '²', '߁'):                                                   # digits only to str.isdigit/int
+                pool.add(d[:k] + u + d[k + 1:])
+    pool.update(t + x for t in times[:40] for x in ('\n', ' '))
+    nums = ['-', '.', '-.', '1.', '.1', '-.1', '1.1', '1..1', '--1', '1-', '+1', '1e5', '1,000', '0x10', ' 1', '1 ', '1\n', '-0', '00', '٢', '1٢']
+    pool.update(nums)
+    for _ in range(2000 if tier == 'quick' else 20000):
+        pool.add(''.join(rnd.choice(alpha + ['2', '3', '5', ':', 'Z', '_', '|']) for _ in range(rnd.randint(1, 14))))
+    pool = sorted(pool)
+    fails, n = [], 0
+
+    def check(name, got_f, want_f, inp):
+        nonlocal n
+        n += 1
+        try:
+            got = got_f()
+        except Exception as e:
+            got = 'raised %s: %s' % (type(e).__name__, str(e)[:60])
+        want = want_f()
+        if got != want and len(fails) < 8:
+            fails.append({'input': inp, 'detail': '%s returned %r, the value language of the type gives %r' % (name, got, want)})
+    for v in pool:
+        for t in ('N', 'R'):
+            check('match_re', lambda: V.match_re(t, v), lambda: spec_int(v) if t == 'N' else spec_real(v), {'short_data_type': t, 'val': v})
+        check('is_valid_time', lambda: V.is_valid_time(v), lambda: spec_time(v), {'val': v})
+        for t in ('D8', 'D6', 'DT'):
+            check('is_valid_date', lambda: V.is_valid_date(t, v), lambda: spec_date(t, v), {'data_type': t, 'val': v})
+        for t in ALL_TYPES:
+            for cs, icvn in (('B', '00401'), ('E', '00401'), ('B', '00501'), ('E', '00501')):
+                check('IsValidDataType', lambda: V.IsValidDataType(v, t, cs, icvn), lambda: spec_type(v, t, cs, icvn),
+                      {'str_val': v, 'data_type': t, 'charset': cs, 'icvn': icvn})
+    return {'function': 'pyx12.validation (match_re, is_valid_time, is_valid_date, IsValidDataType)', 'evaluations': n,
+            'bound': '%d strings (boundary alphabet to length %d, code points, date/time/range grids, seeded random) x all types x charsets x versions' % (
+                len(pool), 3 if tier == 'quick' else 4), 'failures': fails}
